@@ -552,7 +552,15 @@ func (it *FinInterp) Eval(e ast.Expr, env FinEnv) (interface{}, error) {
 			}
 			lb, ok := l.(bool)
 			if !ok {
-				return nil, fmt.Errorf("operand not boolean: %s", ExprString(x.X))
+				// an operand outside the atoms (a field read): the result is known only if the other operand decides it
+				r, err := it.Eval(x.Y, env)
+				if err != nil {
+					return nil, err
+				}
+				if rb, isBool := r.(bool); isBool && ((x.Op == token.LOR && rb) || (x.Op == token.LAND && !rb)) {
+					return rb, nil
+				}
+				return Sym{Name: ExprString(e)}, nil
 			}
 			if x.Op == token.LAND && !lb {
 				return false, nil
@@ -566,7 +574,7 @@ func (it *FinInterp) Eval(e ast.Expr, env FinEnv) (interface{}, error) {
 			}
 			rb, ok := r.(bool)
 			if !ok {
-				return nil, fmt.Errorf("operand not boolean: %s", ExprString(x.Y))
+				return Sym{Name: ExprString(e)}, nil
 			}
 			return rb, nil
 		case token.EQL, token.NEQ:
